@@ -1323,6 +1323,10 @@ def rule_codec(prog):
         out.missing("LSCodec::decode / LSCodec::encode")
         return out
     dec, enc = dec[0], enc[0]
+    if hir.strip(dec["body"]).get("k") != "BlockExpr":
+        # decode is a dispatch over helpers (`match Self::readiness(src) { .. }`): the statement sequence the clauses are about is not here
+        out.missing("LSCodec::decode as one statement sequence (header search, length, guard, slice, advance)")
+        return out
     blk = hir.strip(dec["body"])["b"]
     seq = blk["stmts"] + ([blk["expr"]] if blk.get("expr") else [])
     src = "%s#%s" % (dec["params"][1]["name"], dec["params"][1]["id"]) if len(dec["params"]) > 1 else None
@@ -2050,8 +2054,23 @@ def rule_text_sync(prog):
         if n["pat"].get("k") == "Binding" and "Mut" in n["pat"]["mode"] and "String" in c.tstr(n["pat"]["bt"]):
             temp = "%s#%s" % (n["pat"]["name"], n["pat"]["id"])
     rr = [n for n in hir.nodes(b["body"], "MethodCall") if n["m"] == "replace_range" and place(n["recv"]) == temp]
+    rr_via = []
+    if temp is not None and not rr:
+        # applied by a helper that is handed the temporary text (`text_change.apply_to(&mut temp_text)`, possibly of the front end)
+        for n in hir.nodes(b["body"]):
+            if n.get("k") not in ("Call", "MethodCall"):
+                continue
+            hb = hir.local_callee_body(prog, n)
+            if hb is None:
+                continue
+            args_ = ([n["recv"]] if n.get("k") == "MethodCall" else []) + list(n["args"])
+            for j_, a_ in enumerate(args_):
+                if place(hir.strip_ref(hir.strip(a_))) == temp and j_ < len(hb["params"]) and hb["params"][j_].get("k") == "Binding":
+                    pn_ = "%s#%s" % (hb["params"][j_]["name"], hb["params"][j_]["id"])
+                    if any(x_.get("k") == "MethodCall" and x_["m"] == "replace_range" and place(x_["recv"]) == pn_ for x_ in hir.nodes(hb["body"])):
+                        rr_via.append(n)
     out.add("document::to_text_changes", "each change is applied to the temporary text before the next one is converted",
-            temp is not None and len(rr) >= 1, c.loc(b["sp"]), "batched changes are relative to their predecessors", ("batch",))
+            temp is not None and (len(rr) >= 1 or len(rr_via) >= 1), c.loc(b["sp"]), "batched changes are relative to their predecessors", ("batch",))
     conv = [n for n in hir.nodes(b["body"], "Call") if hir.callee_display(n) in
             tuple(cv[k]["d"] for k in ("as_index_range", "get_insertion_index") if k in cv)]
     ok = bool(conv) and all(place(n["args"][1]) == temp for n in conv)
